@@ -39,4 +39,26 @@ theorem tie_writeSite : putReplicasSorterCalls =
 theorem tie_balanceSite : balanceSorterCalls =
     ["keepclient.NewRootSorter(bal.serviceRoots, string(blkid[:32])).GetSortedRoots", "keepclient.NewRootSorter"] := rfl
 
+/-- keep-balance: the ranking lives in `srvRendezvous`, a map allocated by each `balanceBlock` call
+and read by the slot comparator; `balanceBlock` assigns to nothing reachable from the shared
+`Balancer`, `KeepService` or `KeepMount` objects (Model.C12 `Task.rank` is a field of the task, not
+of the shared state — the hypothesis `C12_sweep_any_schedule` rests on, cf. `C12_shared_rank_breaks`). -/
+theorem tie_rankIsLocal : balanceRankAssigns =
+    ["uuids := keepclient.NewRootSorter(bal.serviceRoots, string(blkid[:32])).GetSortedRoots()",
+     "srvRendezvous := make(map[*KeepService]int, len(uuids))",
+     "srvRendezvous[srv] = i",
+     "orderi, orderj := srvRendezvous[si.mnt.KeepService], srvRendezvous[sj.mnt.KeepService]"] := rfl
+
+/-- the long-lived per-server object has no field in which a per-block value could be kept -/
+theorem tie_keepServiceFields : keepServiceFields = ["arvados.KeepService", "mounts []*KeepMount", "*ChangeSet"] := rfl
+
+/-- ComputeChangeSets: `workers` goroutines, each calling `bal.balanceBlock` for the blocks it
+receives (Model.C12 `sweepRun`: any interleaving of the calls' steps). -/
+theorem tie_changeSetsSkeleton : changeSetsSkeleton =
+    ["defer", "call bal.time(\"changeset_compute\", \"wall clock time to compute changesets\")", "call bal.time",
+     "call bal.setupLookupTables", "call runtime.GOMAXPROCS => workers",
+     "go", "func {", "call bal.BlockStateMap.Apply", "func {", "}", "}",
+     "go", "func {", "for {", "go", "func {", "for {", "call bal.balanceBlock", "}", "}", "}", "}",
+     "call bal.collectStatistics"] := rfl
+
 end ArvVerif.Tie.C12
